@@ -6,7 +6,7 @@ Only ok/err and the canonical snapshot are compared (never error texts)."""
 import sys
 
 def status(s):
-    return s.split(' | ', 1)[0].split(':', 1)[0].split(' ')[0]
+    return s.split(' | ', 1)[0].split(':', 1)[0].split(' ')[0].replace('!E1', '')
 
 def compare(ops, impl, model, max_report=5):
     """returns list of disagreements: (index, op, [(impl_tok, model_tok)...], impl_status, model_status)"""
@@ -31,6 +31,9 @@ def compare(ops, impl, model, max_report=5):
                 out.append((i, op, [(impl[i].strip(), model[i].strip())], status(impl[i]), status(model[i])))
             continue
         if len(inst) < 6 or diverged:
+            continue
+        if '!E1' in impl[i].split(' | ', 1)[0]:
+            diverged = True     # magnitudes left the envelope (DESIGN §4 E1): compared no further
             continue
         a = impl[i].split(' | ', 1); b = model[i].split(' | ', 1)
         sa, sb = status(impl[i]), status(model[i])
